@@ -251,7 +251,7 @@ def predict_and_compare(act, sc_old, ob_old, sc_new, ob_new, tol=1e-9):
             if o == "M" and n in ("Halve", "Unhalve") or (o == "CM" and False):
                 pass
             e = _err(new, pred, o, ob_old)
-            if e > tol:
+            if not (e <= tol):
                 bad.append((o, e))
             continue
         olds = ob_old[o]
@@ -282,7 +282,7 @@ def predict_and_compare(act, sc_old, ob_old, sc_new, ob_new, tol=1e-9):
                     a_old = _cols(a_old, ax, keep)
                     a_new = _cols(a_new, ax, keep)
             e = _err(a_new, a_old, o, ob_old)
-            if e > tol:
+            if not (e <= tol):
                 bad.append(("%s[%d]" % (o, i), e))
     return bad
 
